@@ -61,15 +61,15 @@ def gen_history(r, encrypted, n_ops):
 def _dig(term, path):
     """follow 'a'/'b' (pair components) and integers (argument index of mac/kdf/enc)"""
     for p in path:
-        if term is None:
+        if not isinstance(term, dict) or len(term) != 1:
             return None
         (k, v), = term.items()
-        if p == 'a':
-            term = v[0]
-        elif p == 'b':
-            term = v[1]
-        else:
-            term = v[p]
+        if not isinstance(v, list):
+            return None
+        i = 0 if p == 'a' else 1 if p == 'b' else p
+        if (p in ('a', 'b') and k != 'pair') or i >= len(v):
+            return None
+        term = v[i]
     return term
 
 
@@ -225,6 +225,21 @@ def _expand_op(o):
         o['data'] = {'ts': d['ts'], 'note': T.expand(d['note']),
                      'files': [{'path': T.expand(f['path']), 'refs': f['refs'], 'digest': T.expand(f['digest']), 'md': T.expand(f['md'])} for f in d['files']]}
     return o
+
+
+def guarded(fn):
+    """worker wrapper: an exception while driving / interpreting the implementation is reported as a broken tie of that case
+    (never on the unchanged tree), not as a crash of the whole run"""
+    import functools
+    import traceback
+
+    @functools.wraps(fn)
+    def wrapper(arg):
+        try:
+            return fn(arg)
+        except Exception as e:  # noqa: BLE001
+            return {'crashed': True, 'idx': arg[1], 'what': '%s: %s' % (type(e).__name__, e), 'trace': traceback.format_exc()[-1500:]}
+    return wrapper
 
 
 def is_key_loc(t):
